@@ -337,7 +337,7 @@ impl World for WorldG {
         let two = rng.chance(if focus == "C01" { 1 } else { 1 }, if focus == "C01" { 2 } else { 4 });
         let ngw = if two { 2 } else { 1 };
         let mut gateways = vec![];
-        let delays: &[u64] = &[0, 1, 10, 3600, 1 << 40];
+        let delays: &[u64] = &[0, 1, 10, 3600, 1 << 40, u64::MAX];
         let rets: &[u64] = &[0, 1, 2, 3, 10, 1 << 40, u64::MAX - 2, u64::MAX];
         let mut guess = Guess { latest: vec![], installed: vec![], approved: vec![], next_fresh: 0 };
         let shared_first = rng.chance(3, 5);
